@@ -86,9 +86,11 @@ Definition flatten_target (sh : shape) (start_dim end_dim : Z) : option (list Z)
     let start := (if start_dim <? 0 then start_dim + ndim else start_dim)%Z in
     let end_ := (if end_dim <? 0 then end_dim + ndim else end_dim)%Z in
     if (end_ <? start)%Z then None                            (* RuntimeError *)
-    else if (start <? end_)%Z
-         then Some (map Z.of_nat (firstn (Z.to_nat start) sh) ++ [(-1)%Z] ++ map Z.of_nat (skipn (Z.to_nat end_ + 1) sh))
-         else Some (map Z.of_nat sh).
+    else
+      let s := Z.to_nat start in
+      let e := Z.to_nat end_ in
+      (* shape[:start] + (math.prod(shape[start:end+1]),) + shape[end+1:] *)
+      Some (map Z.of_nat (firstn s sh ++ [size (firstn (e + 1 - s) (skipn s sh))] ++ skipn (e + 1) sh)).
 
 Definition fwd_flatten (sh : shape) (start_dim end_dim : Z) : option gather_op :=
   match flatten_target sh start_dim end_dim with
@@ -126,27 +128,28 @@ Definition np_expand_dims (sh : shape) (l : list Z) : option gather_op :=
 
 Inductive sqarg := SqNone | SqInt (z : Z) | SqTuple (l : list Z).
 
-(* cpu_ops.squeeze_forward *)
+(* cpu_ops.squeeze_forward:
+     axis None            -> np.squeeze(a)
+     int | tuple          -> every dim range-checked against [-max(ndim,1), max(ndim,1)) and normalised (IndexError),
+                             repeated dims rejected (ValueError), then only the named dims of size 1 are squeezed *)
+Definition sq_axes (arg : sqarg) : option (list Z) :=
+  match arg with SqNone => None | SqInt z => Some [z] | SqTuple l => Some l end.
+
 Definition fwd_squeeze (sh : shape) (arg : sqarg) : option gather_op :=
   let n := length sh in
-  match arg with
-  | SqTuple l =>
-      match norm_axes n l with
-      | None => None                                          (* a.shape[ax] raises IndexError *)
-      | Some _ =>
-          let l' := filter (fun z => match norm_axis n z with Some k => nth k sh 0 =? 1 | None => false end) l in
-          match l' with
-          | [] => Some (id_op sh)
-          | _ => np_squeeze sh (Some l')
-          end
+  match sq_axes arg with
+  | None => np_squeeze sh None
+  | Some l =>
+      match norm_axes (Nat.max n 1) l with
+      | None => None                                          (* IndexError *)
+      | Some ks =>
+          if negb (nodupb ks) then None                       (* ValueError: repeated dim *)
+          else
+            match filter (fun k => (0 <? n) && (nth k sh 0 =? 1)) ks with
+            | [] => Some (id_op sh)
+            | ks' => np_squeeze sh (Some (map Z.of_nat ks'))
+            end
       end
-  | SqInt z =>
-      if n =? 0 then Some (id_op sh)                          (* can_apply is False before a.shape[axis] is read *)
-      else match norm_axis n z with
-           | None => None                                     (* a.shape[axis] raises IndexError *)
-           | Some k => if nth k sh 0 =? 1 then np_squeeze sh (Some [z]) else Some (id_op sh)
-           end
-  | SqNone => if n =? 0 then Some (id_op sh) else np_squeeze sh None
   end.
 (* squeeze_backward = grad.reshape(a_shape) *)
 Definition bwd_squeeze (gsh a_shape : shape) : option gather_op := bwd_reshape gsh a_shape.
